@@ -46,7 +46,7 @@ WCase(p) ==
   [mem |-> WImage(p), al |-> 0,
    calls |-> <<[op |-> "load"], [op |-> "tags", it |-> 0], [op |-> "next", it |-> 0],
                [op |-> "clone", it |-> 0, to |-> 1]>>
-             \o <<[op |-> "count", it |-> 0], [op |-> "clone", it |-> 0, to |-> 3], [op |-> "nth", it |-> 3, n |-> 1],
+             \o <<[op |-> "last", it |-> 0], [op |-> "count", it |-> 0], [op |-> "clone", it |-> 0, to |-> 3], [op |-> "nth", it |-> 3, n |-> 1],
                   [op |-> "nth", it |-> 3, n |-> 0], [op |-> "nth", it |-> 3, n |-> 5], [op |-> "next", it |-> 3]>>
              \o Rep([op |-> "next", it |-> 0], n)
              \o Rep([op |-> "next", it |-> 1], n)
